@@ -6,6 +6,7 @@ import (
 	"fmt"
 	"go/token"
 	"go/types"
+	"os"
 	"sort"
 	"strings"
 
@@ -670,16 +671,50 @@ func (v *Verifier) lockAcquire(st *State, muExpr ssa.Value, mu Value, ins ssa.In
 	}
 	prev := st.lastRel[key]
 	if prev == nil {
+		prev = st.loopBase
+	}
+	if prev == nil {
 		prev = st.entry
 	}
 	v.havocGuarded(st, owner, named, tc, field)
 	v.assumeTypeInv(st, owner, named, tc)
 	v.assumeRely(st, owner, tc, prev)
+	if v.fc != nil && st.top().depth == 0 {
+		env := v.loopEnv(st)
+		for _, cl := range v.fc.AssumesAcq {
+			st.assumeTagged(v.evalBoolIn(st, env, cl), cl.Label)
+		}
+	}
 	st.acq = st.snapshot()
 	if st.clean == nil {
 		st.clean = map[string]bool{}
 	}
 	st.clean[key] = true
+	// blocks read by the owner's invariants: the owner itself and the backing arrays of its guarded slices
+	if st.watch == nil {
+		st.watch = map[string]func(*State) []*Term{}
+	}
+	stt := named.Underlying().(*types.Struct)
+	ownerBlk, ownerOff := owner.L[0], owner.L[1]
+	var sliceOffs []int
+	for _, fields := range tc.GuardedBy {
+		for _, f := range fields {
+			for i := 0; i < stt.NumFields(); i++ {
+				if stt.Field(i).Name() == f {
+					if _, ok := stt.Field(i).Type().Underlying().(*types.Slice); ok {
+						sliceOffs = append(sliceOffs, v.e.lay.FieldOff(stt, i))
+					}
+				}
+			}
+		}
+	}
+	st.watch[key] = func(s *State) []*Term {
+		out := []*Term{ownerBlk}
+		for _, o := range sliceOffs {
+			out = append(out, s.nameLoad(Select(Select(s.memOf(KI), ownerBlk), Add(ownerOff, IntLit(int64(o))))))
+		}
+		return out
+	}
 }
 
 func (v *Verifier) lockRelease(st *State, muExpr ssa.Value, mu Value, ins ssa.Instruction) {
@@ -705,6 +740,7 @@ func (v *Verifier) lockRelease(st *State, muExpr ssa.Value, mu Value, ins ssa.In
 		}
 	}
 	delete(st.clean, key)
+	delete(st.watch, key)
 	if st.lastRel == nil {
 		st.lastRel = map[string]*State{}
 	}
@@ -739,13 +775,30 @@ func (v *Verifier) condWait(st *State, condExpr ssa.Value, cond Value, ins ssa.I
 	for m := range tc.GuardedBy {
 		mu = m
 	}
-	v.assertTypeInv(st, owner, named, tc, "wait", ins.Pos())
-	v.assertGuarantee(st, owner, named, tc, "wait", ins.Pos())
+	// the one lock held is the cond's mutex (a Wait with another lock held is not modelled)
+	allClean := len(st.held) == 1
+	for k := range st.held {
+		if !st.clean[k] {
+			allClean = false
+		}
+	}
+	if allClean {
+		v.framedInv(st, named, tc, "wait", ins.Pos())
+	} else {
+		v.assertTypeInv(st, owner, named, tc, "wait", ins.Pos())
+		v.assertGuarantee(st, owner, named, tc, "wait", ins.Pos())
+	}
 	prev := st.snapshot()
 	v.havocGuarded(st, owner, named, tc, mu)
 	v.assumeTypeInv(st, owner, named, tc)
 	v.assumeRely(st, owner, tc, prev)
 	st.acq = st.snapshot()
+	for k := range st.held {
+		if st.clean == nil {
+			st.clean = map[string]bool{}
+		}
+		st.clean[k] = true
+	}
 }
 
 func (v *Verifier) havocGuarded(st *State, owner Value, named *types.Named, tc *TypeContract, mu string) {
@@ -1051,6 +1104,9 @@ func (v *Verifier) loopEffectsOf(li *LoopInfo) *loopEffects {
 						}
 					}
 					eff.unknown = true
+					if v.e.opts.Verbose {
+						fmt.Fprintf(os.Stderr, "loop #%d of %s: unknown effects because of call %s\n", li.Ordinal, v.key, callName(&ins.Call))
+					}
 				}
 			}
 		}
@@ -1173,6 +1229,22 @@ func (v *Verifier) havocLoop(st *State, li *LoopInfo) {
 		for _, lc := range eff.lockCalls {
 			v.havocForLockCall(st, lc)
 		}
+		if len(eff.lockCalls) > 0 && len(st.held) == 0 {
+			// lock not held at the loop head: what the next acquisition sees is relative to the
+			// last-seen values described by the loop invariant
+			st.lastRel = nil
+			st.loopBasePending = true
+		}
+		if len(eff.lockCalls) > 0 && len(st.held) > 0 {
+			// a loop that waits on a condition variable re-acquires the lock each iteration
+			st.acq = st.snapshot()
+			for k := range st.held {
+				if st.clean == nil {
+					st.clean = map[string]bool{}
+				}
+				st.clean[k] = true
+			}
+		}
 	}
 	// iterators advanced inside the loop lose their visited set
 	for b := range li.Blocks {
@@ -1279,8 +1351,29 @@ func (v *Verifier) havocForLockCall(st *State, c *ssa.Call) {
 		st.havocAll()
 		return
 	}
+	stt := named.Underlying().(*types.Struct)
 	for mu := range tc.GuardedBy {
+		prev := st.snapshot()
 		v.havocGuarded(st, owner, named, tc, mu)
+		// if the lock is held at the loop head the monitor invariant holds there as well
+		for i := 0; i < stt.NumFields(); i++ {
+			if stt.Field(i).Name() == mu {
+				muv := Value{L: []*Term{owner.L[0], Add(owner.L[1], IntLit(int64(v.e.lay.FieldOff(stt, i))))}}
+				held := st.held[lockKey(muv)] != nil
+				if !held {
+					for _, h := range st.held {
+						// same lock through an equal pointer term: decided syntactically on the offset, semantically elsewhere
+						if h.off.String() == muv.L[1].String() || len(st.held) == 1 {
+							held = true
+						}
+					}
+				}
+				if held {
+					v.assumeTypeInv(st, owner, named, tc)
+					v.assumeRely(st, owner, tc, prev)
+				}
+			}
+		}
 	}
 }
 
@@ -1302,7 +1395,7 @@ func (v *Verifier) tryEval(st *State, x ssa.Value) (Value, bool) {
 				n := v.e.lay.Size(x.Type())
 				return Value{T: x.Type(), L: c.L[p.cell.off : p.cell.off+n]}, true
 			}
-			return st.loadAtRaw(p.L[0], p.L[1], x.Type()), true
+			return st.loadAt(p.L[0], p.L[1], x.Type()), true
 		}
 	case *ssa.Global, *ssa.Const, *ssa.Function:
 		return v.eval(st, x), true
